@@ -444,6 +444,12 @@ pub fn crash_points(sink: &mut Sink, rng: &mut Rng, thorough: bool, work: &Path)
           let mut e = random_entry(rng, id);
           e.status = 3;
           if e.ranges.is_empty() { e.ranges = vec![0..(1u64 << (2 * (29 - e.depth as u32)))]; }
+          if id == 2 {
+            // always one survivor at the deepest 32-bit storage depth with an ODD number of ranges
+            e.depth = 13;
+            let u = 1u64 << (2 * (29 - 13));
+            e.ranges = vec![u..2 * u, 5 * u..6 * u, 9 * u..10 * u];
+          }
           let p = dir.join(format!("m{}.fits", id));
           e.write_fits(&p, false);
           list_txt.push_str(&format!("{} {}\n", id, p.display()));
@@ -554,6 +560,30 @@ pub fn crash_points(sink: &mut Sink, rng: &mut Rng, thorough: bool, work: &Path)
             if let Some(w) = want {
               if !x.ok || x.out.split_whitespace().collect::<Vec<_>>() != w.ascii().split_whitespace().collect::<Vec<_>>() {
                 sink.impl_failures.push(format!("C16 after recovery from a kill at {} MOC {} is wrong", point, f[0]));
+              }
+            }
+          }
+        }
+        // (5) the interrupted kind of update, run again to completion, must succeed and leave every MOC right
+        let redo = match kind {
+          "append" => None,
+          "chgstatus" => Some(run("mocset", &["chgstatus", file.to_str().unwrap(), "deprecated", "2"], None, &[])),
+          "chgstatus2" => Some(run("mocset", &["chgstatus", file.to_str().unwrap(), "deprecated", "2,3"], None, &[])),
+          _ => Some(run("mocset", &["purge", file.to_str().unwrap()], None, &[])),
+        };
+        if let Some(r2) = redo {
+          if !r2.ok {
+            sink.impl_failures.push(format!("C16 `{}` fails when run again after recovery from a kill at {}: {}", kind, point, r2.err.replace('\n', " ").chars().take(200).collect::<String>()));
+          }
+          for row in list_rows(&file).split(';') {
+            let f: Vec<&str> = row.split(',').collect();
+            if f.len() >= 5 && f[1] != "removed" {
+              let x = run("mocset", &["extract", file.to_str().unwrap(), f[0], "ascii"], None, &[]);
+              let want = match f[0] { "50" => Some(&newe), "60" => Some(&e2), _ => entries.iter().find(|e| e.id.to_string() == f[0]) };
+              if let Some(w) = want {
+                if !x.ok || x.out.split_whitespace().collect::<Vec<_>>() != w.ascii().split_whitespace().collect::<Vec<_>>() {
+                  sink.impl_failures.push(format!("C16 after `{}` re-run following a kill at {} MOC {} is wrong", kind, point, f[0]));
+                }
               }
             }
           }
